@@ -59,6 +59,12 @@ def directed(rnd, quick):
     # chunk-size lines with every hex digit, upper and lower case boundaries (10..15, 26, 171, 255, 256, 4096)
     for cs in (10, 11, 12, 13, 14, 15, 26, 171, 255, 256, 4096):
         cases.append({"ex": [ex(1, "chunked", cs * 2 + 3, chunk=cs, seg=rnd.choice([1, 9, 1 << 20])), ex(2, "cl", 5)], "limit": 2, "concurrent": 1})
+    # chunk extensions after every size line (and after the last-chunk's zero), under three segmentations, followed by reuse
+    for cs in (1, 7, 16, 300):
+        for seg in (1 << 20, 1, 5):
+            e1 = ex(1, "chunked", cs * 2 + 3, chunk=cs, seg=seg)
+            e1["ext"] = True
+            cases.append({"ex": [e1, ex(2, "cl", 5), ex(3, "chunked", 8)], "limit": 1, "concurrent": 1})
     # chunked coding together with a Content-Length (equal to, smaller and larger than the coded body): the coding decides
     for also in (9, 2, 23, 60):
         for seg in (1 << 20, 1, 6):
@@ -113,7 +119,7 @@ def run(rep):
                        "with connection: close / dropped early by the application, against a pool limit, explored by TLC; completed behaviours are "
                        "concretised (framing and sizes rotate) and run through awc::Client over a scripted in-memory connector; plus a close at "
                        "every byte offset of the head and of Content-Length and chunked bodies under three segmentations, leftovers, and concurrency above the "
-                       "limit; chunked responses that also carry a Content-Length. distinct = cases")
+                       "limit; chunked responses that also carry a Content-Length or chunk extensions. distinct = cases")
     for c in cases[:1] + cases[-1:]:
         rep.sample(c)
     tpath = ar.run_cases(cases, "all")
